@@ -12,16 +12,22 @@
    subscription identifiers -- for those only the numbers are tied (C15_dedicated_codes_table). *)
 From Coq Require Import String.
 From MV Require Import Gen.Consts Proofs.ConstsProofs.
-From MV Require Import Base.Prelude Model.RespQueue Model.Inbound Proofs.InboundLogic Proofs.InboundInv.
+From MV Require Import Base.Prelude Model.RespQueue Model.Inbound Proofs.InboundLogic Proofs.InboundInv
+  Proofs.InboundConsts.
 
 (* ---- at most one DISCONNECT on the wire of a whole run, whatever the peer and the application do
    (server roles; also: every DISCONNECT has packet id field 0 and, on MQTT 5, a reason >= 0x80, and the
-   control service is told to stop at most once) *)
+   control service is told to stop at most once).
+   The same theorem is the inbound-response part of C08 at the model's level of abstraction: everything the
+   endpoint writes in response to inbound traffic is a sequence of whole packets ([flat3 ws]), each of a type
+   the dispatcher answers with (PUBACK 64, PUBREC 80, PUBCOMP 112, SUBACK 144, UNSUBACK 176, PINGRESP 208,
+   DISCONNECT 224) with a u16 identifier and a u8 reason ([trip_wf]); the bytes of such a packet are the codec's
+   business (Props/C01.v, C09.v). *)
 Theorem C15_at_most_one_disconnect : forall (is5 : bool) (cf : list N) (ops : list (list N)),
   Forall field_ok ops ->
   let s := init_st is5 cf in
   (exists ws, cumwire (trace ops s) = flat3 ws /\ (ndisc ws <= 1)%nat /\
-     (forall x, In x ws -> is_disc x = true -> snd (fst x) = 0 /\ if is5 then 128 <= snd x else snd x = 0)) /\
+     (forall x, In x ws -> trip_wf x /\ (is_disc x = true -> snd (fst x) = 0 /\ if is5 then 128 <= snd x else snd x = 0))) /\
   (forall s', In s' (trace ops s) -> stops (l_ s') <= 1) /\
   run_ops ops s = map observe (trace ops s).
 Proof. exact server_run. Qed.
@@ -31,7 +37,7 @@ Theorem C15_at_most_one_disconnect_client : forall (is5 : bool) (cf : list N) (o
   Forall field_ok ops ->
   let s := init_st_cli is5 cf in
   (exists ws, cumwire (trace ops s) = flat3 ws /\ (ndisc ws <= 1)%nat /\
-     (forall x, In x ws -> is_disc x = true -> snd (fst x) = 0 /\ if is5 then 128 <= snd x else snd x = 0)) /\
+     (forall x, In x ws -> trip_wf x /\ (is_disc x = true -> snd (fst x) = 0 /\ if is5 then 128 <= snd x else snd x = 0))) /\
   (forall s', In s' (trace ops s) -> stops (l_ s') <= 1) /\
   run_ops ops s = map observe (trace ops s).
 Proof. exact client_run. Qed.
